@@ -151,7 +151,7 @@ def _r2(ctx, F):
                   "(decisions on such a path: %s)" % (bad[:1],), loc=rt[0].loc())
         # the descriptor's flags are set from the request before the data write and after the O_APPEND refusal
         cf = [c for c in live_calls(b) if c.name == "check_fd_flags"]
-        ok = len(cf) == 1 and b.dominates(cf[0].bb, rt[0].bb) and vf.render(v.call_args(cf[0])[3], b, short=True) == "flags"
+        ok = len(cf) == 1 and b.dominates(cf[0].bb, rt[0].bb) and vf.render(v.call_args(cf[0])[-1], b, short=True) == "flags"
         ctx.check("R2-gates", "write/fd-flags-from-request", ok, "write: the descriptor's flags are not reset from this request's flags before the data is written", loc=b.loc())
         if cf:
             bad = []
